@@ -22,6 +22,42 @@ def Inst.nparams : Inst → Nat
   | .array a => a.nparams
   | .dict a => a.nparams
 
+/-! ### instance sets closed under references
+
+Guards are stated on a set `S` of instance indices (a `Nat → Bool` certificate, e.g. `d.reach ty` or `fun _ => true`)
+that is closed under type references: a dictionary or a zero-size element somewhere in a schema does not
+spoil the theorems for the types that cannot reach it. -/
+
+def Inst.refs : Inst → List Nat
+  | .prim _ => []
+  | .struct s => s.fields.map (·.ty)
+  | .union u => u.variants.map (·.1)
+  | .array a => [a.elem.ty]
+  | .dict a => [a.elem.ty]
+
+/-- every instance in `S` references only instances in `S` -/
+def Desc.closed (d : Desc) (S : Nat → Bool) : Bool :=
+  (List.range d.insts.size).all fun i =>
+    !S i || match d.get? i with | some inst => inst.refs.all S | none => true
+
+/-- the local condition `p` holds for every instance in `S` -/
+def Desc.allOn (d : Desc) (S : Nat → Bool) (p : Inst → Bool) : Bool :=
+  (List.range d.insts.size).all fun i =>
+    !S i || match d.get? i with | some inst => p inst | none => true
+
+/-- candidate certificate: instances reachable from `ty` (unverified helper; `Desc.closed` is what the theorems use) -/
+def Desc.reachList (d : Desc) (ty : Nat) : List Nat :=
+  (List.range (d.insts.size + 1)).foldl (fun acc _ =>
+    acc.foldl (fun acc i =>
+      match d.get? i with
+      | some inst => inst.refs.foldl (fun acc r => if acc.contains r then acc else acc ++ [r]) acc
+      | none => acc) acc) [ty]
+
+def Desc.reach (d : Desc) (ty : Nat) : Nat → Bool := fun i => (d.reachList ty).contains i
+
+/-- the whole descriptor -/
+def allInsts : Nat → Bool := fun _ => true
+
 /-- no map-backed dictionary instance -/
 def Desc.noDict (d : Desc) : Bool := d.insts.toList.all (fun i => !i.isDict)
 
@@ -161,10 +197,29 @@ def rkOf (d : Desc) (rk : List Nat) (ty : Nat) (bare : Bool) : Nat :=
   | false, some (.struct _) => 0
   | _, _ => rkAt rk ty
 
-/-- references followed before any input is consumed (fields of a bare struct, tuple elements) go to a
+/-- a successful read of this type consumes at least one byte -/
+def Desc.consumes (d : Desc) (ty : Nat) (bare : Bool) : Bool :=
+  match d.get? ty with
+  | some (.prim .bit) => false
+  | some (.prim _) => true
+  | some (.struct _) => !bare
+  | some (.union _) => true
+  | some (.array a) => !a.isTuple
+  | some (.dict _) => true
+  | none => false
+
+/-- fields of a bare struct read before anything was surely consumed (`g = false`) must go to a smaller rank;
+after an unmasked consuming field (e.g. the `fields_mask:#` itself) the remaining fields are guarded -/
+def fieldsProductive (d : Desc) (rk : List Nat) (r : Nat) : Bool → List Field → Bool
+  | _, [] => true
+  | g, f :: fs =>
+    (g || decide (rkOf d rk f.ty f.bare < r)) &&
+    fieldsProductive d rk r (g || (f.mask.isNone && d.consumes f.ty f.bare)) fs
+
+/-- references followed before any input is consumed (leading fields of a bare struct, tuple elements) go to a
 strictly smaller rank; unions, vectors and dictionaries read 4 bytes first and are unconstrained -/
 def Inst.productive (d : Desc) (rk : List Nat) (i : Nat) : Inst → Bool
-  | .struct s => s.fields.all (fun f => decide (rkOf d rk f.ty f.bare < rkAt rk i))
+  | .struct s => fieldsProductive d rk (rkAt rk i) false s.fields
   | .array a => !a.isTuple || decide (rkOf d rk a.elem.ty a.elem.bare < rkAt rk i)
   | _ => true
 
@@ -172,6 +227,21 @@ def Inst.productive (d : Desc) (rk : List Nat) (i : Nat) : Inst → Bool
 def Desc.productive (d : Desc) (rk : List Nat) : Bool :=
   rk.all (fun r => decide (r ≤ d.insts.size)) &&
   (List.range d.insts.size).all (fun i => match d.get? i with | some inst => inst.productive d rk i | none => true)
+
+/-- one relaxation round of the rank computation -/
+def Desc.rankStep (d : Desc) (rk : List Nat) : List Nat :=
+  (List.range d.insts.size).map fun i =>
+    match d.get? i with
+    | some (.struct s) =>
+      (s.fields.foldl (fun (p : Nat × Bool) f =>
+        ((if p.2 then p.1 else max p.1 (rkOf d rk f.ty f.bare + 1)), p.2 || (f.mask.isNone && d.consumes f.ty f.bare))) (0, false)).1
+    | some (.array a) => if a.isTuple then rkOf d rk a.elem.ty a.elem.bare + 1 else 0
+    | _ => 0
+
+/-- candidate rank certificate (longest chain of input-free references), unverified: the theorems take any
+`rk` with `d.productive rk = true`; on a descriptor with an input-free cycle the candidate fails the check -/
+def Desc.computeRanks (d : Desc) : List Nat :=
+  (List.range (d.insts.size + 1)).foldl (fun rk _ => d.rankStep rk) (List.replicate d.insts.size 0)
 
 /-- fuel that always suffices for an input of `len` bytes -/
 def fuelFor (d : Desc) (len : Nat) : Nat := (len + 1) * (d.insts.size + 1)
